@@ -15,6 +15,14 @@
 (*    NON-ATOMIC check `(new or current).interrupt` and the following      *)
 (*    disconnect(immediate=True), finally (lock: slot := None).            *)
 (*                                                                         *)
+(*  - a server may stall in the middle of a frame (SrvMayStall): the thread *)
+(*    then sits in a blocking read ("blocked"), from which only the end of  *)
+(*    the stream or a shutdown of the read half of ITS socket wakes it -    *)
+(*    closing the descriptor from another thread does not.  ShutdownBoth =  *)
+(*    TRUE is disconnect() as it is (shutdown(SHUT_RDWR) before close);     *)
+(*    FALSE shuts down the write half only (a seeded change): TLC must find *)
+(*    InterruptLeadsToTermination violated.                                 *)
+(*                                                                         *)
 (* Fixed = TRUE is the code after the disconnect() fixes (attributes       *)
 (* initialised in __init__, close guarded, send errors while flushing      *)
 (* swallowed); FALSE is the code as it was, kept as a self-test: TLC must  *)
@@ -30,6 +38,8 @@ CONSTANTS Users,        \* user thread ids
           SrvMayClose,  \* the server may close an established connection at any time
           Reactions,    \* subset of {"disc_pkt", "reconnect", "raise"}: what a received packet may trigger
           HandlerReconnect, \* an exception handler may call connect()
+          SrvMayStall,  \* the server may stop in the middle of a frame and stay silent
+          ShutdownBoth, \* disconnect() shuts down both halves of the socket before closing it
           Fixed, Emit
 
 Unset == 0 - 1      \* attribute does not exist
@@ -41,14 +51,15 @@ VARIABLES
   nt, newNt,            \* thread slots (0 = None)
   tstate, intr, prev,   \* per networking thread
   pend,                 \* deferred write error of a thread
+  rsock,                \* the socket a thread is blocked reading from (0: none)
   sock, file,           \* attributes: Unset | NoneV | socket id
   sopen, fopen, peer,   \* per socket: socket object open, file object open, peer: "none" | "up" | "closed"
   connected, queue,
   prog, result,         \* per user: remaining program, results so far
   exits, errors, tcp, budget
-vars == <<nt, newNt, tstate, intr, prev, pend, sock, file, sopen, fopen, peer, connected, queue, prog, result, exits, errors, tcp, budget>>
+vars == <<nt, newNt, tstate, intr, prev, pend, rsock, sock, file, sopen, fopen, peer, connected, queue, prog, result, exits, errors, tcp, budget>>
 
-IOStates == {"write", "read"}
+IOStates == {"write", "read", "blocked"}
 Live(t) == tstate[t] \notin {"unborn", "dead"}
 FreshThread == CHOOSE t \in Threads : tstate[t] = "unborn" /\ \A u \in Threads : u < t => tstate[u] # "unborn"
 FreshSock == CHOOSE s \in Socks : peer[s] = "new" /\ \A u \in Socks : u < s => peer[u] # "new"
@@ -58,7 +69,7 @@ HaveSock == \E s \in Socks : peer[s] = "new"
 Init ==
   /\ nt = 0 /\ newNt = 0
   /\ tstate = [t \in Threads |-> "unborn"] /\ intr = [t \in Threads |-> FALSE] /\ prev = [t \in Threads |-> 0]
-  /\ pend = [t \in Threads |-> FALSE]
+  /\ pend = [t \in Threads |-> FALSE] /\ rsock = [t \in Threads |-> 0]
   /\ sock = (IF Fixed THEN NoneV ELSE Unset) /\ file = (IF Fixed THEN NoneV ELSE Unset)
   /\ sopen = [s \in Socks |-> FALSE] /\ fopen = [s \in Socks |-> FALSE] /\ peer = [s \in Socks |-> "new"]
   /\ connected = FALSE /\ queue = 0
@@ -93,7 +104,7 @@ ConnectBody(S, mode) ==
                                 !.tstate[t] = "begin", !.prev[t] = S.nt]
             IN [S |-> IF S.nt = 0 THEN [S1 EXCEPT !.nt = t] ELSE [S1 EXCEPT !.newNt = t], r |-> "ok"]
 
-Sendable(S) == S.sock \notin {Unset, NoneV} /\ S.sopen[S.sock] /\ S.peer[S.sock] = "up"
+Sendable(S) == S.sock \notin {Unset, NoneV} /\ S.sopen[S.sock] /\ S.peer[S.sock] \in {"up", "stalled"}
 
 \* disconnect(immediate)
 DisconnectBody(S, imm) ==
@@ -127,14 +138,20 @@ U_Call(u) ==
         /\ LET r == DisconnectBody(State, op = "disc_now") IN
              /\ Install(r.S) /\ result' = [result EXCEPT ![u] = Append(@, <<op, r.r, "-">>)]
   /\ prog' = [prog EXCEPT ![u] = Tail(@)]
-  /\ UNCHANGED <<pend, exits, errors, budget>>
+  /\ UNCHANGED <<pend, rsock, exits, errors, budget>>
 
 ----------------------------------------------------------------------------
 (* The server                                                              *)
 Srv_Close(s) ==
-  /\ SrvMayClose /\ peer[s] = "up" /\ budget > 0
+  /\ SrvMayClose /\ peer[s] \in {"up", "stalled"} /\ budget > 0
   /\ peer' = [peer EXCEPT ![s] = "closed"] /\ budget' = budget - 1
-  /\ UNCHANGED <<nt, newNt, tstate, intr, prev, pend, sock, file, sopen, fopen, connected, queue, prog, result, exits, errors, tcp>>
+  /\ UNCHANGED <<nt, newNt, tstate, intr, prev, pend, rsock, sock, file, sopen, fopen, connected, queue, prog, result, exits, errors, tcp>>
+
+\* the server sends the beginning of a frame and then nothing
+Srv_Stall(s) ==
+  /\ SrvMayStall /\ peer[s] = "up" /\ budget > 0
+  /\ peer' = [peer EXCEPT ![s] = "stalled"] /\ budget' = budget - 1
+  /\ UNCHANGED <<nt, newNt, tstate, intr, prev, pend, rsock, sock, file, sopen, fopen, connected, queue, prog, result, exits, errors, tcp>>
 
 ----------------------------------------------------------------------------
 (* Networking threads                                                      *)
@@ -143,16 +160,16 @@ Goto(t, st) == tstate' = [tstate EXCEPT ![t] = st]
 
 NT_Begin(t) == /\ tstate[t] = "begin"
                /\ Goto(t, IF prev[t] # 0 THEN "joining" ELSE "top")
-               /\ Keep /\ UNCHANGED <<nt, newNt, intr, prev, pend, sock, file, sopen, fopen, peer, connected, queue, exits, errors, tcp, budget>>
+               /\ Keep /\ UNCHANGED <<nt, newNt, intr, prev, pend, rsock, sock, file, sopen, fopen, peer, connected, queue, exits, errors, tcp, budget>>
 NT_Join(t) == /\ tstate[t] = "joining" /\ tstate[prev[t]] = "dead"
               /\ Goto(t, "adopt")
-              /\ Keep /\ UNCHANGED <<nt, newNt, intr, prev, pend, sock, file, sopen, fopen, peer, connected, queue, exits, errors, tcp, budget>>
+              /\ Keep /\ UNCHANGED <<nt, newNt, intr, prev, pend, rsock, sock, file, sopen, fopen, peer, connected, queue, exits, errors, tcp, budget>>
 NT_Adopt(t) == /\ tstate[t] = "adopt"
                /\ nt' = t /\ newNt' = 0 /\ Goto(t, "top")
-               /\ Keep /\ UNCHANGED <<intr, prev, pend, sock, file, sopen, fopen, peer, connected, queue, exits, errors, tcp, budget>>
+               /\ Keep /\ UNCHANGED <<intr, prev, pend, rsock, sock, file, sopen, fopen, peer, connected, queue, exits, errors, tcp, budget>>
 NT_Top(t) == /\ tstate[t] = "top"
              /\ Goto(t, IF intr[t] THEN "exitcb" ELSE "write")
-             /\ Keep /\ UNCHANGED <<nt, newNt, intr, prev, pend, sock, file, sopen, fopen, peer, connected, queue, exits, errors, tcp, budget>>
+             /\ Keep /\ UNCHANGED <<nt, newNt, intr, prev, pend, rsock, sock, file, sopen, fopen, peer, connected, queue, exits, errors, tcp, budget>>
 \* with lock: pop and write everything queued; an IOError is deferred
 NT_Write(t) == /\ tstate[t] = "write"
                /\ IF queue > 0 /\ ~intr[t]
@@ -160,19 +177,23 @@ NT_Write(t) == /\ tstate[t] = "write"
                        ELSE queue' = queue - 1 /\ pend' = [pend EXCEPT ![t] = TRUE]
                   ELSE UNCHANGED <<queue, pend>>
                /\ Goto(t, "read")
-               /\ Keep /\ UNCHANGED <<nt, newNt, intr, prev, sock, file, sopen, fopen, peer, connected, exits, errors, tcp, budget>>
+               /\ Keep /\ UNCHANGED <<nt, newNt, intr, prev, rsock, sock, file, sopen, fopen, peer, connected, exits, errors, tcp, budget>>
 
 \* outside the lock: select + read_packet + _react on whatever the attributes are NOW
 NT_Read(t) ==
   /\ tstate[t] = "read"
   /\ \/ \* interrupted meanwhile, or nothing arrived within the timeout
         /\ Goto(t, IF pend[t] THEN "except" ELSE "top")
-        /\ Keep /\ UNCHANGED <<nt, newNt, intr, prev, pend, sock, file, sopen, fopen, peer, connected, queue, exits, errors, tcp, budget>>
+        /\ Keep /\ UNCHANGED <<nt, newNt, intr, prev, pend, rsock, sock, file, sopen, fopen, peer, connected, queue, exits, errors, tcp, budget>>
      \/ \* select / read on a closed file object, or end of stream
         /\ ~intr[t]
         /\ \/ file \in {Unset, NoneV}
            \/ (file \notin {Unset, NoneV} /\ (~fopen[file] \/ peer[file] = "closed"))
         /\ Goto(t, "except")
+        /\ Keep /\ UNCHANGED <<nt, newNt, intr, prev, pend, rsock, sock, file, sopen, fopen, peer, connected, queue, exits, errors, tcp, budget>>
+     \/ \* the beginning of a frame has arrived: read_packet sits in a blocking read for the rest
+        /\ ~intr[t] /\ file \notin {Unset, NoneV} /\ fopen[file] /\ peer[file] = "stalled"
+        /\ Goto(t, "blocked") /\ rsock' = [rsock EXCEPT ![t] = file]
         /\ Keep /\ UNCHANGED <<nt, newNt, intr, prev, pend, sock, file, sopen, fopen, peer, connected, queue, exits, errors, tcp, budget>>
      \/ \* a packet arrives and something reacts to it
         /\ ~intr[t] /\ file \notin {Unset, NoneV} /\ fopen[file] /\ peer[file] = "up" /\ budget > 0
@@ -181,7 +202,7 @@ NT_Read(t) ==
              \/ /\ re = "disc_pkt"
                 /\ LET r == DisconnectBody(State, FALSE) IN Install([r.S EXCEPT !.tstate[t] = "top"])
                 /\ pend' = [pend EXCEPT ![t] = FALSE]
-                /\ Keep /\ UNCHANGED <<exits, errors>>
+                /\ Keep /\ UNCHANGED <<exits, errors, rsock>>
              \/ /\ re = "reconnect" /\ HaveSock /\ HaveThread
                 /\ \E mode \in ServerModes :
                      LET d == DisconnectBody(State, FALSE)
@@ -189,48 +210,57 @@ NT_Read(t) ==
                      IF c.r = "Refused"
                      THEN Install([c.S EXCEPT !.tstate[t] = "except"])        \* ConnectionRefusedError escapes the listener
                      ELSE Install([c.S EXCEPT !.tstate[t] = "top"])
-                /\ Keep /\ UNCHANGED <<pend, exits, errors>>
+                /\ Keep /\ UNCHANGED <<pend, rsock, exits, errors>>
              \/ /\ re = "raise"
                 /\ Goto(t, "except")
-                /\ Keep /\ UNCHANGED <<nt, newNt, intr, prev, pend, sock, file, sopen, fopen, peer, connected, queue, exits, errors, tcp>>
+                /\ Keep /\ UNCHANGED <<nt, newNt, intr, prev, pend, rsock, sock, file, sopen, fopen, peer, connected, queue, exits, errors, tcp>>
+
+\* the blocking read returns: end of stream from the server, or this socket's read half was shut down locally
+\* (a socket that disconnect() has closed was shut down first - both halves, or, in the seeded variant, the write half only)
+NT_Blocked(t) ==
+  /\ tstate[t] = "blocked"
+  /\ \/ peer[rsock[t]] = "closed"
+     \/ (~sopen[rsock[t]] /\ ShutdownBoth)
+  /\ Goto(t, "except") /\ rsock' = [rsock EXCEPT ![t] = 0]
+  /\ Keep /\ UNCHANGED <<nt, newNt, intr, prev, pend, sock, file, sopen, fopen, peer, connected, queue, exits, errors, tcp, budget>>
 
 \* _handle_exit
 NT_ExitCb(t) == /\ tstate[t] = "exitcb"
                 /\ exits' = IF ~connected THEN exits + 1 ELSE exits
                 /\ Goto(t, "finally")
-                /\ Keep /\ UNCHANGED <<nt, newNt, intr, prev, pend, sock, file, sopen, fopen, peer, connected, queue, errors, tcp, budget>>
+                /\ Keep /\ UNCHANGED <<nt, newNt, intr, prev, pend, rsock, sock, file, sopen, fopen, peer, connected, queue, errors, tcp, budget>>
 \* except Exception: self.interrupt = True; handlers
 NT_Except(t) == /\ tstate[t] = "except"
                 /\ intr' = [intr EXCEPT ![t] = TRUE] /\ errors' = errors + 1
                 /\ Goto(t, "handlers")
-                /\ Keep /\ UNCHANGED <<nt, newNt, prev, pend, sock, file, sopen, fopen, peer, connected, queue, exits, tcp, budget>>
+                /\ Keep /\ UNCHANGED <<nt, newNt, prev, pend, rsock, sock, file, sopen, fopen, peer, connected, queue, exits, tcp, budget>>
 NT_Handlers(t) ==
   /\ tstate[t] = "handlers"
   /\ \/ /\ Goto(t, "he_check")
-        /\ Keep /\ UNCHANGED <<nt, newNt, intr, prev, pend, sock, file, sopen, fopen, peer, connected, queue, exits, errors, tcp, budget>>
+        /\ Keep /\ UNCHANGED <<nt, newNt, intr, prev, pend, rsock, sock, file, sopen, fopen, peer, connected, queue, exits, errors, tcp, budget>>
      \/ /\ HandlerReconnect /\ HaveSock /\ HaveThread /\ budget > 0
         /\ budget' = budget - 1
         /\ \E mode \in ServerModes :
              LET c == ConnectBody(State, mode) IN Install([c.S EXCEPT !.tstate[t] = "he_check"])
-        /\ Keep /\ UNCHANGED <<pend, exits, errors>>
+        /\ Keep /\ UNCHANGED <<pend, rsock, exits, errors>>
 \* if (self.new_networking_thread or self.networking_thread).interrupt:   -- evaluated, not yet acted upon
 NT_Check(t) == /\ tstate[t] = "he_check"
                /\ LET who == IF newNt # 0 THEN newNt ELSE nt IN
                   Goto(t, IF who # 0 /\ intr[who] THEN "he_disc" ELSE "finally")
-               /\ Keep /\ UNCHANGED <<nt, newNt, intr, prev, pend, sock, file, sopen, fopen, peer, connected, queue, exits, errors, tcp, budget>>
+               /\ Keep /\ UNCHANGED <<nt, newNt, intr, prev, pend, rsock, sock, file, sopen, fopen, peer, connected, queue, exits, errors, tcp, budget>>
 \* self.disconnect(immediate=True)
 NT_Disc(t) == /\ tstate[t] = "he_disc"
               /\ LET r == DisconnectBody(State, TRUE) IN Install([r.S EXCEPT !.tstate[t] = "finally"])
-              /\ Keep /\ UNCHANGED <<pend, exits, errors, budget>>
+              /\ Keep /\ UNCHANGED <<pend, rsock, exits, errors, budget>>
 \* finally: with lock: networking_thread = None
 NT_Finally(t) == /\ tstate[t] = "finally"
                  /\ nt' = 0 /\ Goto(t, "dead")
-                 /\ Keep /\ UNCHANGED <<newNt, intr, prev, pend, sock, file, sopen, fopen, peer, connected, queue, exits, errors, tcp, budget>>
+                 /\ Keep /\ UNCHANGED <<newNt, intr, prev, pend, rsock, sock, file, sopen, fopen, peer, connected, queue, exits, errors, tcp, budget>>
 
-NTStep(t) == NT_Begin(t) \/ NT_Join(t) \/ NT_Adopt(t) \/ NT_Top(t) \/ NT_Write(t) \/ NT_Read(t) \/ NT_ExitCb(t)
+NTStep(t) == NT_Begin(t) \/ NT_Join(t) \/ NT_Adopt(t) \/ NT_Top(t) \/ NT_Write(t) \/ NT_Read(t) \/ NT_Blocked(t) \/ NT_ExitCb(t)
              \/ NT_Except(t) \/ NT_Handlers(t) \/ NT_Check(t) \/ NT_Disc(t) \/ NT_Finally(t)
 
-Next == (\E u \in Users : U_Call(u)) \/ (\E s \in Socks : Srv_Close(s)) \/ (\E t \in Threads : NTStep(t))
+Next == (\E u \in Users : U_Call(u)) \/ (\E s \in Socks : Srv_Close(s) \/ Srv_Stall(s)) \/ (\E t \in Threads : NTStep(t))
 Spec == Init /\ [][Next]_vars /\ \A t \in Threads : WF_vars(NTStep(t))
 
 ----------------------------------------------------------------------------
